@@ -1,11 +1,11 @@
 """Helper of props/C39.py (not a property): the table-driven differential corpus.
 
-Two generated modules, built once per configuration cell:
+Four generated modules, built once per configuration cell:
 
-  c39ops  sources and operand pools of the properties that OWN the helpers whose bodies are selected
-          by configuration macros: C05 (TypeConversion.c int conversions), C19 (Optimize.c PyObjectCompare:
-          int-int digit classes, float-int / int-float), C02 (Optimize.c PyLongBinop / PyFloatBinop /
-          PyLongCompare with constants)
+  c39cv / c39cmp / c39ar   sources and operand pools of the properties that OWN the helpers whose bodies are
+          selected by configuration macros: C05 (TypeConversion.c int conversions), C19 (Optimize.c
+          PyObjectCompare: int-int digit classes, float-int / int-float), C02 (Optimize.c PyLongBinop /
+          PyFloatBinop / PyLongCompare with constants)
   c39x    tiny typed functions for the other macro-guarded utility regions (unicode kinds, bytes, list /
           tuple / dict / set internals, calls, type slots, exceptions, generators, int builtins, formatting,
           pattern matching, argument binding)
@@ -192,6 +192,9 @@ for mname, mm in mods.items():
 for mname, mm in mods.items():
     ns[mname] = mm
 
+import re
+_ADDR = re.compile(r" at 0x[0-9a-fA-F]+")
+
 def dec(v):
     if not isinstance(v, dict):
         return v
@@ -213,13 +216,13 @@ def enc(r, depth=0):
     if r is False: return "F"
     if t is int: return str(r)
     if t is float: return "f" + (repr(r) if r != r or r in (math.inf, -math.inf) else r.hex())
-    if t is str: return "s" + ascii(r)
+    if t is str: return "s" + _ADDR.sub(" at 0x?", ascii(r))
     if t in (list, tuple) and depth < 6:
         return ("[" if t is list else "(") + ",".join(enc(x, depth + 1) for x in r) + ("]" if t is list else ")")
     if t is dict and depth < 6:
         return "{" + ",".join(enc(k, depth + 1) + ":" + enc(v, depth + 1) for k, v in r.items()) + "}"
     try:
-        return t.__name__ + ":" + ascii(r)
+        return t.__name__ + ":" + _ADDR.sub(" at 0x?", ascii(r))
     except BaseException as e:
         return t.__name__ + ":<repr " + type(e).__name__ + ">"
 
@@ -1193,18 +1196,23 @@ X_ROWS = {"WO", "G"}       # tables whose entries are argument rows
 # ---------------------------------------------------------------------------------------------
 # c39ops: sources and pools of the owning properties
 # ---------------------------------------------------------------------------------------------
-def ops_source():
-    """C05 (has its own header and the __int128 prelude) + C19 int/float comparison functions + C02 constant
-    binops.  -> (source, python-executable part for the CPython oracle, C02 function records)"""
+OPS_MODULES = ("c39cv", "c39cmp", "c39ar")
+
+
+def ops_sources():
+    """three modules (translated in parallel): c39cv = C05 conversions (own header and __int128 prelude), c39cmp =
+    C19 int/float comparison functions, c39ar = C02 constant binops.
+    -> ({module: source}, {module: python-executable source for the CPython oracle})"""
+    head = "# cython: language_level=3\n"
     c05 = _C05.gen_source()
-    c19 = _C19.ii_source().replace("# cython: language_level=3\n", "")
+    c19 = _C19.ii_source()
     F = _C02.gen_functions("quick")
-    c02 = "\n".join(_C02.func_source(f) for f in F)
-    return c05 + "\n\n" + c19 + "\n\n" + c02 + "\n", c19 + "\n\n" + c02 + "\n", F
+    c02 = head + "\n".join(_C02.func_source(f) for f in F) + "\n"
+    return {"c39cv": c05, "c39cmp": c19, "c39ar": c02}, {"c39cmp": c19, "c39ar": c02}
 
 
 def ops_tables(rng, quick):
-    """-> (tables, calls) for c39ops"""
+    """-> (tables, calls [(module, function, mode, tables)]) for the three modules of ops_sources()"""
     tables, calls = {}, []
     # ---- C19: int-int pairs by digit class, float-int pairs by sign x magnitude class
     ii = _C19.gen_int_pairs(rng, True)
@@ -1224,10 +1232,10 @@ def ops_tables(rng, quick):
     for on, _ in _C19.II_OPS:
         for kind in ("o", "b"):
             for tn, _sig in _C19.II_TYPINGS:
-                calls.append(("%s_%s_%s" % (kind, on, tn), "same", ["II"]))
+                calls.append(("c39cmp", "%s_%s_%s" % (kind, on, tn), "same", ["II"]))
             for d, tab in (("fi", "FI"), ("if", "IF"), ("ff", "FF")):
                 for tn in _C19.FI_FNS[d]:
-                    calls.append(("%s_%s_%s" % (kind, on, tn), "same", [tab]))
+                    calls.append(("c39cmp", "%s_%s_%s" % (kind, on, tn), "same", [tab]))
     tri = _C19.gen_int_triples(rng, [p for p in _C19.gen_int_pairs(rng, True)], True)[:: (4 if quick else 1)]
     tables["III"] = [[ev(a), ev(b), ev(c)] for a, b, c, _ in tri]
     mixed = []
@@ -1236,9 +1244,9 @@ def ops_tables(rng, quick):
     tables["MIX"] = mixed
     for name, kind, _info in _C19.ii_functions():
         if kind != "pair":
-            calls.append((name, "rows", ["III"]))
+            calls.append(("c39cmp", name, "rows", ["III"]))
             if name.endswith("_oo"):
-                calls.append((name, "rows", ["MIX"]))
+                calls.append(("c39cmp", name, "rows", ["MIX"]))
     # ---- C02: every constant-operand function over ints of every sign x digit class, and floats
     ints = _C02.int_operands(rng, "quick", _C02.CONSTS_QUICK)
     if quick:
@@ -1251,7 +1259,7 @@ def ops_tables(rng, quick):
     F = _C02.gen_functions("quick")
     for f in F:
         big_shift = f["op"] == "Lshift" and f["order"] == "CObj"
-        calls.append((f["name"], "product", ["AR_SMALL" if big_shift else "AR"]))
+        calls.append(("c39ar", f["name"], "product", ["AR_SMALL" if big_shift else "AR"]))
     # ---- C05: every C integer type, argument conversion / assignment conversion / to-Python
     vals = _C05.int_values(rng, 30 if quick else 200)
     if quick:
@@ -1261,8 +1269,8 @@ def ops_tables(rng, quick):
     tables["W4"] = [[ev(rng.choice(words)), ev(rng.choice(words)), ev(rng.choice(words)), ev(rng.choice(words))] for _ in range(60 if quick else 400)] + \
                    [[ev(a), ev(b), ev(0), ev(0)] for a in words for b in (0, 0x7fffffff, 0x80000000, 0xffffffff)]
     for ct, nm, w, sg, fam in _C05.TYPES:
-        calls.append(("arg_" + nm, "product", ["CV"]))
-        calls.append(("asg_" + nm, "product", ["CV"]))
+        calls.append(("c39cv", "arg_" + nm, "product", ["CV"]))
+        calls.append(("c39cv", "asg_" + nm, "product", ["CV"]))
         if fam != "bint":
-            calls.append(("topy_" + nm, "rows", ["W4"]))
+            calls.append(("c39cv", "topy_" + nm, "rows", ["W4"]))
     return tables, calls
